@@ -1280,6 +1280,7 @@ func (c *DnsController) evictDnsRespCacheIfSame(cacheKey string, cache *DnsCache
 }
 
 func (c *DnsController) evictExpiredDnsCache(now time.Time) {
+	verifYield("dnscache.janitor.start", c)
 	optimisticCacheEnabled, optimisticCacheTtl, maxCacheSize := c.currentOptimisticCacheConfig()
 	// Step 1: Time-based eviction
 	// - When optimistic_cache_ttl > 0: evict entries older than (deadline + stale_window)
@@ -1299,6 +1300,7 @@ func (c *DnsController) evictExpiredDnsCache(now time.Time) {
 				c.dnsCache.Delete(cacheKey)
 				return true
 			}
+			verifYield("dnscache.janitor.afterLoad", c, cacheKey)
 
 			// Calculate effective deadline
 			// - If optimistic cache is enabled and ttl > 0: use (deadline + optimisticCacheTtl)
@@ -1536,12 +1538,14 @@ func (c *DnsController) LookupDnsRespCache(cacheKey string, ignoreFixedTtl bool)
 // Falls back to an owned in-place TTL-aware pack if pre-packed response is not available.
 func (c *DnsController) LookupDnsRespCache_(msg *dnsmessage.Msg, cacheKey string, ignoreFixedTtl bool) (resp []byte, needRefresh bool) {
 	c.requireStore()
+	verifYield("dnscache.lookup.start", c, cacheKey)
 	// Load cache directly without expiry check (to support optimistic cache)
 	val, ok := c.dnsCache.Load(cacheKey)
 	if !ok {
 		return nil, false
 	}
 	cache := val.(*DnsCache)
+	verifYield("dnscache.lookup.afterLoad", c, cacheKey)
 
 	now := time.Now()
 
@@ -1771,6 +1775,7 @@ func (c *DnsController) __updateDnsCacheDeadline(cacheKey string, host string, d
 
 	// Store atomically - concurrent writes don't block each other
 	newCache.RouteOwnerKey = cacheKey
+	verifYield("dnscache.insert.beforeStore", c, cacheKey)
 	c.dnsCache.Store(cacheKey, newCache)
 	c.rememberDnsKnowledge(baseKey, originalDeadline)
 
